@@ -86,7 +86,7 @@ def styleFromList( styleName, specArray, spacing, showAllLevels):
             displayLevels = 1
             numbered = False
         if (numbered):
-            lls = ListLevelStyleNumber(level=(i+1))
+            lls = ListLevelStyleNumber(level=(i+1), numformat=numberFormat)
             if (numPrefix != ''):
                 lls.setAttribute('numprefix', numPrefix)
             if (numSuffix != ''):
